@@ -402,6 +402,7 @@ def run_case(
     res: Result,
     invalid: tuple[str, Any] | None = None,
     const_form: bool = False,
+    shape: int | None = None,
 ) -> None:
     """provided: source -> (value, spelling index).  invalid: (source, raw spelling) replaces that source's value."""
     vals = {s: v for s, (v, _) in provided.items()}
@@ -446,7 +447,10 @@ def run_case(
         "provided": {s: [v.idx, i] for s, (v, i) in provided.items()},
         "invalid": list(invalid) if invalid else None,
         "const_form": const_form,
+        "shape": shape,
     }
+    if shape is not None and invalid is not None:
+        rp["invalid"] = ["file", "<shape>"]
     try:
         ck = (path, repr(sorted(file_entries.items())), repr(sorted(env.items())))
         if G.get("parser_cache", (None, None))[0] == ck:
@@ -695,7 +699,50 @@ def run_option(path: tuple[str, ...], name: str, tier: str) -> Result:
                 provided[l] = (pool[(i + 1) % len(pool)], 0)
             for raw in inv[s]:
                 run_case(path, opt, provided, res, invalid=(s, raw))
+    # file values of every TOML shape: used (where the model coerces them) or reported, never ignored
+    if "file" in avail:
+        for k in range(len(M.FILE_SHAPES)):
+            run_shape(path, opt, k, pool, res)
     return res
+
+
+def shape_reference(path: tuple[str, ...], opt: M.Opt, k: int, pool: list[M.Val]) -> tuple[str, Any, dict[str, M.Val] | None]:
+    """what CONFIG_TYPE itself makes of TOML shape k at this option: ("invalid", None, ctx) | ("valid", value, ctx) |
+    ("skip", reason, None)"""
+    ct = G["leaves"][path].CONFIG_TYPE
+    raw = M.FILE_SHAPES[k][1]
+    ctx = context(path, {opt.name: pool[0].expected})
+    if ctx is None:
+        return "skip", "no context", None
+    kw = {n: M.materialise(v.expected) for n, v in ctx.items() if n != opt.name}
+    kw[opt.name] = dict(raw) if isinstance(raw, dict) else raw
+    try:
+        m = ct(**kw)
+    except G["ValidationError"] as e:
+        if all(x["loc"] and x["loc"][0] == opt.name for x in e.errors()):
+            return "invalid", None, ctx
+        return "skip", "cross-field validator", None
+    except Exception:  # noqa: BLE001  a validator that raises something else: still not a usable value
+        return "invalid", None, ctx
+    return "valid", getattr(m, opt.name), ctx
+
+
+def run_shape(path: tuple[str, ...], opt: M.Opt, k: int, pool: list[M.Val], res: Result) -> None:
+    name, raw = M.FILE_SHAPES[k]
+    verdict, value, _ = shape_reference(path, opt, k, pool)
+    if verdict == "skip":
+        res.count("file_shape_skipped")
+        return
+    res.count("file_shape_cases")
+    res.count(f"file_shape_{verdict}")
+    if verdict == "invalid":
+        run_case(path, opt, {"file": (pool[0], 0)}, res, invalid=("file", raw), shape=k)
+    else:
+        v = M.Val(value, [], [], [raw], idx=M.SHAPE_IDX - k)
+        if context(path, {opt.name: value}) is None:
+            res.count("file_shape_skipped")
+            return
+        run_case(path, opt, {"file": (v, 0)}, res, shape=k)
 
 
 # ---------------------------------------------------------------------------
@@ -1116,6 +1163,11 @@ def replay(doc: dict[str, Any]) -> Result:
         opt = next(o for o in G["opts"][path] if o.name == doc["option"])
         alph = M.alphabet(opt.kind)
         def val_of(vi: int) -> M.Val:
+            if vi <= M.SHAPE_IDX:
+                k = M.SHAPE_IDX - vi
+                usable = [v for v in alph if context(path, {opt.name: v.expected}) is not None]
+                _, value, _ = shape_reference(path, opt, k, _pool(opt, usable))
+                return M.Val(value, [], [], [M.FILE_SHAPES[k][1]], idx=vi)
             if vi == M.EMPTY_IDX:
                 ev = M.empty_value(opt.kind)
                 assert ev is not None
@@ -1129,8 +1181,8 @@ def replay(doc: dict[str, Any]) -> Result:
         res = Result()
         inv = doc.get("invalid")
         if inv:
-            inv = (inv[0], inv[1])
-        run_case(path, opt, provided, res, invalid=inv, const_form=bool(doc.get("const_form")))
+            inv = (inv[0], M.FILE_SHAPES[doc["shape"]][1] if doc.get("shape") is not None else inv[1])
+        run_case(path, opt, provided, res, invalid=inv, const_form=bool(doc.get("const_form")), shape=doc.get("shape"))
     for v in res.violations:
         print("   ", v.sig, "::", v.msg)
     return res
